@@ -51,7 +51,7 @@ func genScript(c *scriptCase) {
 	// class path manager on demand) and has no interface
 	for k := 0; k < c.Classes; k++ {
 		if k%3 == 2 {
-			c.files[fmt.Sprintf("sub/C%d.php", k)] = fmt.Sprintf("<?php\nnamespace %s\\sub;\nclass C%d {\n  public function id() { return \"C%d\"; }\n}\n", scriptNS, k, k)
+			c.files[fmt.Sprintf("s%d/C%d.php", k, k)] = fmt.Sprintf("<?php\nnamespace %s\\s%d;\nclass C%d {\n  public function id() { return \"C%d\"; }\n}\n", scriptNS, k, k, k)
 			continue
 		}
 		c.files[fmt.Sprintf("I%d.php", k)] = fmt.Sprintf("<?php\nnamespace %s;\ninterface I%d { function id(); }\n", scriptNS, k)
@@ -95,7 +95,7 @@ func genScript(c *scriptCase) {
 			case x < 3 && len(mine) > 0:
 				k := mine[(a*len(mine)/c.Acts+r.Intn(2))%len(mine)]
 				if k%3 == 2 {
-					fmt.Fprintf(&sb, "  $o = new sub\\C%d();\n", k)
+					fmt.Fprintf(&sb, "  $o = new s%d\\C%d();\n", k, k)
 				} else {
 					fmt.Fprintf(&sb, "  $o = new C%d();\n", k)
 				}
@@ -104,7 +104,7 @@ func genScript(c *scriptCase) {
 				k := r.Intn(c.Classes)
 				sub := ""
 				if k%3 == 2 {
-					sub = "sub\\\\"
+					sub = fmt.Sprintf("s%d\\\\", k)
 				}
 				tok(fmt.Sprintf("ce%d", k), "", fmt.Sprintf("yn(class_exists(\"%s\\\\%sC%d\", false))", scriptNS, sub, k))
 			case x == 4:
@@ -161,8 +161,8 @@ func (c *scriptCase) write(dir string) error {
 	if err := os.MkdirAll(dir, 0o755); err != nil {
 		return err
 	}
-	_ = os.MkdirAll(filepath.Join(dir, "sub"), 0o755)
 	for name, src := range c.files {
+		_ = os.MkdirAll(filepath.Dir(filepath.Join(dir, name)), 0o755)
 		if err := os.WriteFile(filepath.Join(dir, name), []byte(src), 0o644); err != nil {
 			return err
 		}
